@@ -24,10 +24,10 @@ def run():
         # stratified: every (options, shape, clean, format-command) combination at least once, the rest at random
         seen, first, rest = set(), [], []
         for c in cases:
-            k = (c["c"]["opts"], c["c"]["shape"], c["c"]["clean"], c["c"]["fmtcmd"])
+            k = (c["c"]["opts"], c["c"]["shape"], c["c"]["clean"], c["c"]["fmtcmd"], c["c"].get("loc"))
             (rest if k in seen else first).append(c)
             seen.add(k)
-        cases = first + rest[: max(0, 460 - len(first))]
+        cases = first + rest[: max(0, 560 - len(first))]
     session_driver.preload()
     results = pool.parallel_map(fr._worker, [(c, chk.seed) for c in pool.chunks(cases, 4)])
     errors = 0
